@@ -28,13 +28,32 @@ def log(msg):
 
 
 def build_native(feats):
+    """build the native runner against the tree under test (VERIF_REPO, default /repo).  For a tree other than
+    /repo (scratch copies used when testing seeded changes) the runner crates are copied to scratch with the path
+    dependency rewritten, so /repo and /verif stay untouched."""
     env = dict(os.environ)
     env['CARGO_NET_OFFLINE'] = 'true'
     env['RUSTFLAGS'] = '--cfg fuzzing'
+    repo = os.environ.get('VERIF_REPO', '/repo')
+    base = VERIF
+    if os.path.realpath(repo) != '/repo':
+        import shutil
+        import hashlib as _h
+        base = os.path.join(os.environ.get('VERIF_SCRATCH', '/var/tmp/verif-scratch'),
+                            'native-' + _h.sha1(os.path.realpath(repo).encode()).hexdigest()[:10])
+        os.makedirs(base, exist_ok=True)
+        for d in ('native', 'native_nd'):
+            dst = os.path.join(base, d)
+            os.makedirs(os.path.join(dst, 'src'), exist_ok=True)
+            for f in ('Cargo.toml', 'Cargo.lock'):
+                txt = open(os.path.join(VERIF, d, f)).read().replace('path = "/repo"', 'path = "%s"' % os.path.realpath(repo))
+                open(os.path.join(dst, f), 'w').write(txt)
+        shutil.copy(os.path.join(VERIF, 'native', 'src', 'main.rs'), os.path.join(base, 'native', 'src', 'main.rs'))
+        os.environ['VERIF_NATIVE_BASE'] = base
     dirs = ['native'] + (['native_nd'] if 'nd' in feats else [])
     for d in dirs:
         for prof in ([], ['--release']):
-            r = subprocess.run(['cargo', 'build', '--offline', '-q'] + prof, cwd=os.path.join(VERIF, d), env=env,
+            r = subprocess.run(['cargo', 'build', '--offline', '-q'] + prof, cwd=os.path.join(base, d), env=env,
                                capture_output=True, text=True)
             if r.returncode != 0:
                 return 'native build failed (%s %s):\n%s' % (d, ' '.join(prof), r.stderr[-3000:])
